@@ -94,7 +94,42 @@ _get_module_info = Contract(
     params={'inference_state': ANY, 'sys_path': Opt(Seq(STR)), 'full_name': ANY, 'kwargs': ANY},
     families=['SysMod'], ret=Tup(Opt(ANY), Opt(BOOL)),
     ensures_all=['sys.path == old(sys.path)'],
+    # C20: "this path is what import resolution uses" - the lookup runs while sys.path IS the given path, also
+    # when that path is empty (only None means: the interpreter's own path)
+    ensures=['implies(sys_path is not None, result == find_module_on(sys_path, full_name, kwargs) '
+             'or result == (None, None))',
+             'implies(sys_path is None, result == find_module_on(old(sys.path), full_name, kwargs) '
+             'or result == (None, None))'],
+    witness={}, replay=lambda inp: _replay_module_info(inp), concrete_only=True,
+    witness_library=[{'sys_path': []}, {'sys_path': ['/nonexistent-dir']}],
+    concrete_ensures=['result == (None, None)', 'SYS_PATH_AFTER == SYS_PATH_BEFORE'],
 )
+
+
+def _replay_module_info(inp):
+    """a module reachable only through the interpreter's own sys.path must NOT be found with the given path"""
+    from pyvc.replay import run_real
+    import sys
+    import tempfile
+    import shutil
+    from jedi.inference.compiled.subprocess.functions import get_module_info
+    d = tempfile.mkdtemp(prefix='c20_', dir='/var/tmp')
+    try:
+        with open(os.path.join(d, 'only_on_interpreter_path.py'), 'w') as f:
+            f.write('x = 1\n')
+        sys.path.insert(0, d)
+        before = list(sys.path)
+        try:
+            out = run_real(lambda: get_module_info(None, sys_path=list(inp['sys_path']),
+                                                   full_name='only_on_interpreter_path', string='only_on_interpreter_path'))
+            after = list(sys.path)
+        finally:
+            sys.path[:] = [p for p in sys.path if p != d]
+        if out['kind'] == 'return':
+            out['value'] = tuple(None if v is None else (v if isinstance(v, bool) else 'found') for v in out['value'])
+        return {'SYS_PATH_BEFORE': before, 'SYS_PATH_AFTER': after}, out
+    finally:
+        shutil.rmtree(d, ignore_errors=True)
 
 _import_module = Contract(
     id='C12.import_module', prop='C12',
@@ -132,6 +167,23 @@ FAMILIES = [
 CONTRACTS = [_load_module, _load_builtin, _get_module_info, _import_module, _c20._base]
 
 
+def _find_module_impl(V, st, self_val, args, kwargs, node):
+    from pyvc.values import SV, MExc, box_any
+    from pyvc.calls import call_spec
+    V.assumed_used.add('_find_module')
+    for cls in ('ImportError', 'Exception'):
+        bad = st.fork()
+        if V.feasible(bad.pc):
+            V.exc_out.append((bad, MExc(cls, [], origin='_find_module')))
+    cur = V.get_attr(st, V.reg.names['sys'], 'path', node)
+    full = kwargs.get('full_name')
+    rest = kwargs.get('**')
+    if full is None or rest is None or args:
+        from pyvc.values import Unsupported
+        raise Unsupported('_find_module called with an unexpected argument shape')
+    return call_spec(V, V.reg.names['find_module_on'], None, [cur, full, rest], {}, st, node)
+
+
 def register(reg):
     import z3
     from pyvc.values import SV, MNS, MFn, MCls
@@ -157,9 +209,16 @@ def register(reg):
         requires=['safe_to_import(inference_state.project._load_unsafe_extensions, '
                   'inference_state.project._get_base_sys_path(inference_state), sys_path)'],
         note='forwards to access.load_module in the helper (forwarding chain checked structurally)'))})
-    reg.names['_find_module'] = FnSpec('_find_module', params=[('full_name', ANY)], varargs=True, ret=Tup(Opt(ANY), Opt(BOOL)),
+    reg.names['find_module_on'] = FnSpec('find_module_on', params=[('path', Seq(STR)), ('full_name', ANY), ('kwargs', ANY)],
+                                         ret=Tup(Opt(ANY), Opt(BOOL)), pure=True, assumed=True,
+                                         note='what importlib\'s finders answer for a name when sys.path is `path`')
+    reg.names['_find_module_abstract'] = FnSpec('_find_module', params=[('full_name', ANY)], varargs=True, ret=Tup(Opt(ANY), Opt(BOOL)),
                                        raises=['ImportError', 'Exception'], assumed=True,
                                        note='importlib finders: find_spec only')
+    reg.names['_find_module'] = FnSpec('_find_module', impl=_find_module_impl, assumed=True,
+                                       raises=['ImportError', 'Exception'],
+                                       note='importlib finders (find_spec only): the answer is a function of the '
+                                            'name, the options and sys.path AT THE TIME OF THE CALL; may raise')
     reg.names['_load_builtin_module'] = FnSpec(
         '_load_builtin_module', params=[('inference_state', _IS), ('import_names', Seq(STR)),
                                         ('sys_path', Opt(Seq(STR)))], ret=Opt(ANY), effects=['load-builtin'],
